@@ -168,65 +168,65 @@ def coinIsValid (denom : String) (amt : Int) : Bool := validDenom denom && decid
 mutual
 def Msg.validateBasic (s : State) : Msg → M Unit
   | .entRaise p amt denom => do
-    if p.decode.isNone then throw eInvalidAddress
-    if !coinIsValid denom amt then throw eInvalidCoins
-    if amt = 0 then throw eInvalidCoins
+    let _ ← p.decodeM
+    require (coinIsValid denom amt) eInvalidCoins
+    require (amt ≠ 0) eInvalidCoins
   | .entDecide id dec sg => do
-    if sg.decode.isNone then throw eInvalidAddress
-    if id = 0 then throw eUnknownRequest
-    if !validAcceptReject dec then throw (entErr 6)
+    let _ ← sg.decodeM
+    require (id ≠ 0) eUnknownRequest
+    require (validAcceptReject dec) (entErr 6)
   | .entWl action a sg => do
-    if sg.decode.isNone then throw eInvalidAddress
-    if a.decode.isNone then throw eInvalidAddress
-    if !validWlAction action then throw (entErr 8)
+    let _ ← sg.decodeM
+    let _ ← a.decodeM
+    require (validWlAction action) (entErr 8)
   | .entParams auth p => do
-    if auth.decode.isNone then throw eInvalidAddress
-    if !p.validate then throw (.err "undefined" 1)
+    let _ ← auth.decodeM
+    require p.validate (.err "undefined" 1)
   | .regReg k moniker name genesis _ o => (s.reg k).vbRegister moniker name genesis o
   | .regRec k id key r o => (s.reg k).vbRecord id key r o
   | .regBuy k id n o => (s.reg k).vbPurchase id n o
   | .regParams _ auth p => do
-    if auth.decode.isNone then throw eInvalidAddress
-    if !p.validate then throw (.err "undefined" 1)
+    let _ ← auth.decodeM
+    require p.validate (.err "undefined" 1)
   | .strCreate r sn amt denom rate => vbCreateStream r sn denom amt rate
   | .strClaim r sn => do
-    if r.decode.isNone then throw eInvalidAddress
-    if sn.decode.isNone then throw eInvalidAddress
+    let _ ← r.decodeM
+    let _ ← sn.decodeM
   | .strTopup r sn amt _ => do
-    if sn.decode.isNone then throw eInvalidAddress
-    if r.decode.isNone then throw eInvalidAddress
-    if coinNotPositive amt then throw eStrInvalidData
+    let _ ← sn.decodeM
+    let _ ← r.decodeM
+    require (!coinNotPositive amt) eStrInvalidData
   | .strRate r sn rate => do
-    if sn.decode.isNone then throw eInvalidAddress
-    if r.decode.isNone then throw eInvalidAddress
-    if rate < 1 then throw eStrInvalidData
+    let _ ← sn.decodeM
+    let _ ← r.decodeM
+    require (1 ≤ rate) eStrInvalidData
   | .strCancel r sn => do
-    if sn.decode.isNone then throw eInvalidAddress
-    if r.decode.isNone then throw eInvalidAddress
+    let _ ← sn.decodeM
+    let _ ← r.decodeM
   | .strParams auth fee => do
-    if auth.decode.isNone then throw eInvalidAddress
-    if !streamParamsValid fee then throw (.err "undefined" 1)
+    let _ ← auth.decodeM
+    require (streamParamsValid fee) (.err "undefined" 1)
   | .bankSend src dst coins => do
-    if src.decode.isNone then throw eInvalidAddress
-    if dst.decode.isNone then throw eInvalidAddress
-    if !Coins.isValid coins then throw eInvalidCoins
-    if coins.isEmpty then throw eInvalidCoins
+    let _ ← src.decodeM
+    let _ ← dst.decodeM
+    require (Coins.isValid coins) eInvalidCoins
+    require (!coins.isEmpty) eInvalidCoins
   | .authzGrant g e _ => do
-    if g.decode.isNone then throw eInvalidAddress
-    if e.decode.isNone then throw eInvalidAddress
-    if g.decode = e.decode then throw (.err "authz" 2)
+    let _ ← g.decodeM
+    let _ ← e.decodeM
+    require (g.decode ≠ e.decode) (.err "authz" 2)
   | .authzRevoke g e _ => do
-    if g.decode.isNone then throw eInvalidAddress
-    if e.decode.isNone then throw eInvalidAddress
-    if g.decode = e.decode then throw (.err "authz" 2)
+    let _ ← g.decodeM
+    let _ ← e.decodeM
+    require (g.decode ≠ e.decode) (.err "authz" 2)
   | .authzExec g msgs => do
-    if g.decode.isNone then throw eInvalidAddress
-    if msgs.isEmpty then throw eInvalidRequest
+    let _ ← g.decodeM
+    require (!msgs.isEmpty) eInvalidRequest
     Msg.validateBasicList s msgs
   | .feegrantGrant g e => do
-    if g.decode.isNone then throw eInvalidAddress
-    if e.decode.isNone then throw eInvalidAddress
-    if g = e then throw eInvalidAddress
+    let _ ← g.decodeM
+    let _ ← e.decodeM
+    require (g ≠ e) eInvalidAddress
 def Msg.validateBasicList (s : State) : List Msg → M Unit
   | [] => pure ()
   | m :: ms => do Msg.validateBasic s m; Msg.validateBasicList s ms
@@ -240,14 +240,22 @@ abbrev Resp := List (String × String)
 def liftSB (s : State) (x : SB) : State := { s with str := x.str, bank := x.bank }
 def toSB (s : State) : SB := { str := s.str, bank := s.bank }
 
+/-- `MsgUpdateParams` handlers: the authority string must equal the gov module address -/
+def requireAuthority (auth : AddrTok) : M Unit := require (auth = AddrTok.canon Mgov) (.err "gov" 8)
+
+def Msg.signerM (m : Msg) : M Addr :=
+  match m.signer with
+  | some a => .ok a
+  | none => .error (.panic "GetSigners")
+
 mutual
 /-- the message-server handler of one message (`wall`: wall-clock oracle).  The SDK's message
 service router runs `ValidateBasic` before every handler call, top-level or nested: see `handle`
 and `dispatch`. -/
 def execMsg (wall : Nat) (s : State) : Msg → M (State × Resp)
   | .entRaise p amt denom => do
-    let (e, id) ← s.ent.raise s.nowSecU p denom amt
-    pure ({ s with ent := e }, [("id", toString id)])
+    let x ← s.ent.raise s.nowSecU p denom amt
+    pure ({ s with ent := x.1 }, [("id", toString x.2)])
   | .entDecide id dec sg => do
     let e ← s.ent.decide_ s.nowSecU id dec sg
     pure ({ s with ent := e }, [])
@@ -255,31 +263,31 @@ def execMsg (wall : Nat) (s : State) : Msg → M (State × Resp)
     let e ← s.ent.whitelistMsg action a sg
     pure ({ s with ent := e }, [])
   | .entParams auth p => do
-    if auth ≠ AddrTok.canon Mgov then throw (.err "gov" 8)
+    requireAuthority auth
     let e ← s.ent.setParams p
     pure ({ s with ent := e }, [])
   | .regReg k moniker name genesis type o => do
-    let (r, id) ← (s.reg k).register s.nowSecU moniker name genesis type o
-    pure (s.setReg k r, [("id", toString id)])
+    let x ← (s.reg k).register s.nowSecU moniker name genesis type o
+    pure (s.setReg k x.1, [("id", toString x.2)])
   | .regRec k id key rc o => do
-    let (r, k') ← (s.reg k).record s.nowSecU wall id key rc o
-    pure (s.setReg k r, match k with | .wrk => [] | .bcn => [("tsid", toString k')])
+    let x ← (s.reg k).record s.nowSecU wall id key rc o
+    pure (s.setReg k x.1, match k with | .wrk => [] | .bcn => [("tsid", toString x.2)])
   | .regBuy k id n o => do
-    let (r, can) ← (s.reg k).purchase id n o
-    pure (s.setReg k r, [("can", toString can)])
+    let x ← (s.reg k).purchase id n o
+    pure (s.setReg k x.1, [("can", toString x.2)])
   | .regParams k auth p => do
-    if auth ≠ AddrTok.canon Mgov then throw (.err "gov" 8)
+    requireAuthority auth
     let r ← (s.reg k).setParams p
     pure (s.setReg k r, [])
   | .strCreate r sn amt denom rate => do
     let x ← createStream (toSB s) s.time isBlocked r sn denom amt rate
     pure (liftSB s x, [])
   | .strClaim r sn => do
-    let (x, o) ← claimStream (toSB s) s.time isBlocked r sn
-    pure (liftSB s x, [("total", toString o.total), ("pay", toString o.pay), ("fee", toString o.fee), ("rem", toString o.rem)])
+    let x ← claimStream (toSB s) s.time isBlocked r sn
+    pure (liftSB s x.1, [("total", toString x.2.total), ("pay", toString x.2.pay), ("fee", toString x.2.fee), ("rem", toString x.2.rem)])
   | .strTopup r sn amt denom => do
-    let (x, dep, zero) ← topUpDeposit (toSB s) s.time isBlocked r sn denom amt
-    pure (liftSB s x, [("dep", toString dep), ("zero", toString zero)])
+    let x ← topUpDeposit (toSB s) s.time isBlocked r sn denom amt
+    pure (liftSB s x.1, [("dep", toString x.2.1), ("zero", toString x.2.2)])
   | .strRate r sn rate => do
     let x ← updateFlowRate (toSB s) s.time isBlocked r sn rate
     pure (liftSB s x, [])
@@ -287,46 +295,43 @@ def execMsg (wall : Nat) (s : State) : Msg → M (State × Resp)
     let x ← cancelStreamMsg (toSB s) s.time isBlocked r sn
     pure (liftSB s x, [])
   | .strParams auth fee => do
-    if auth ≠ AddrTok.canon Mgov then throw (.err "gov" 8)
-    if !streamParamsValid fee then throw (.err "undefined" 1)
+    requireAuthority auth
+    require (streamParamsValid fee) (.err "undefined" 1)
     pure ({ s with str := { s.str with fee := fee } }, [])
   | .bankSend src dst coins => do
-    let a ← match src.decode with | some a => pure a | none => throw eInvalidAddress
-    let b ← match dst.decode with | some a => pure a | none => throw eInvalidAddress
-    if isBlocked b then throw eUnauthorized
+    let a ← src.decodeM
+    let b ← dst.decodeM
+    require (!isBlocked b) eUnauthorized
     let bank ← s.bank.sendCoins s.nowSec a b coins
     pure ({ s with bank := bank }, [])
   | .authzGrant g e kind => do
-    let ga ← match g.decode with | some a => pure a | none => throw eInvalidAddress
-    let ea ← match e.decode with | some a => pure a | none => throw eInvalidAddress
-    let s1 := { s with bank := s.bank.ensureAccount ea }
-    if s1.grants.contains (ga, ea, kind) then pure (s1, [])
-    else pure ({ s1 with grants := s1.grants ++ [(ga, ea, kind)] }, [])
+    let ga ← g.decodeM
+    let ea ← e.decodeM
+    pure ({ s with bank := s.bank.ensureAccount ea
+                   grants := if s.grants.contains (ga, ea, kind) then s.grants else s.grants ++ [(ga, ea, kind)] }, [])
   | .authzRevoke g e kind => do
-    let ga ← match g.decode with | some a => pure a | none => throw eInvalidAddress
-    let ea ← match e.decode with | some a => pure a | none => throw eInvalidAddress
-    if !s.grants.contains (ga, ea, kind) then throw (.err "authz" 2)
+    let ga ← g.decodeM
+    let ea ← e.decodeM
+    require (s.grants.contains (ga, ea, kind)) (.err "authz" 2)
     pure ({ s with grants := s.grants.filter (· ≠ (ga, ea, kind)) }, [])
   | .authzExec g msgs => do
-    let grantee ← match g.decode with | some a => pure a | none => throw eInvalidAddress
+    let grantee ← g.decodeM
     let s' ← dispatch wall grantee s msgs
     pure (s', [])
   | .feegrantGrant g e => do
-    let ga ← match g.decode with | some a => pure a | none => throw eInvalidAddress
-    let ea ← match e.decode with | some a => pure a | none => throw eInvalidAddress
-    if s.allowances.contains (ga, ea) then throw (.err "feegrant" 2)
-    let s1 := { s with bank := s.bank.ensureAccount ea }
-    pure ({ s1 with allowances := s1.allowances ++ [(ga, ea)] }, [])
+    let ga ← g.decodeM
+    let ea ← e.decodeM
+    require (!s.allowances.contains (ga, ea)) (.err "feegrant" 2)
+    pure ({ s with bank := s.bank.ensureAccount ea, allowances := s.allowances ++ [(ga, ea)] }, [])
 /-- `authz` `DispatchActions` -/
 def dispatch (wall : Nat) (grantee : Addr) (s : State) : List Msg → M State
   | [] => pure s
   | m :: ms => do
-    let granter ← match m.signer with | some a => pure a | none => throw (.panic "GetSigners")
-    if granter ≠ grantee then
-      if !s.grants.contains (granter, grantee, m.kind) then throw (.err "authz" 2)
+    let granter ← m.signerM
+    require (granter = grantee || s.grants.contains (granter, grantee, m.kind)) (.err "authz" 2)
     Msg.validateBasic s m
-    let (s', _) ← execMsg wall s m
-    dispatch wall grantee s' ms
+    let x ← execMsg wall s m
+    dispatch wall grantee x.1 ms
 end
 
 /-- `MsgServiceRouter` handler: `ValidateBasic`, then the message server -/
@@ -369,57 +374,58 @@ def Tx.payer (tx : Tx) : Option Addr := tx.required.head?
 def Tx.hasKind (tx : Tx) (k : RegKind) : Bool := tx.msgs.any (Msg.isOfKind k)
 
 /-- `sdk.NewInt64Coin(denom, int64(fee))` : panics on an invalid denom or a negative amount -/
-def newInt64Coin (denom : String) (fee : Nat) : M Coin :=
-  let a := i64OfU64 fee
-  if !validDenom denom then throw (.panic "invalid denom")
-  else if a < 0 then throw (.panic "negative coin amount")
-  else pure { denom := denom, amt := a }
+def newInt64Coin (denom : String) (fee : Nat) : M Coin := do
+  require (validDenom denom) (.panic "invalid denom")
+  require (0 ≤ i64OfU64 fee) (.panic "negative coin amount")
+  pure { denom := denom, amt := i64OfU64 fee }
+
+/-- the fee the code expects for one top-level message of module `k` (zero for other messages) -/
+def msgFee (r : RegState) (k : RegKind) (acc : Coin) : Msg → M Coin
+  | .regReg k' .. => if k' = k then do coinAdd acc (← newInt64Coin r.params.denom r.params.feeReg) else .ok acc
+  | .regRec k' .. => if k' = k then do coinAdd acc (← newInt64Coin r.params.denom r.params.feeRec) else .ok acc
+  | .regBuy k' _ n _ =>
+    if k' = k then do
+      let perSlot ← newInt64Coin r.params.denom r.params.feeBuy
+      require (0 ≤ perSlot.amt * i64OfU64 n) (.panic "negative coin amount")
+      coinAdd acc { denom := perSlot.denom, amt := perSlot.amt * i64OfU64 n }
+    else .ok acc
+  | _ => .ok acc
 
 /-- expected fee of the module-`k` messages at the top level of the tx (`check*Fees`) -/
 def expectedFee (r : RegState) (k : RegKind) (msgs : List Msg) : M Coin := do
   let zero ← newInt64Coin r.params.denom 0
-  msgs.foldlM (fun (acc : Coin) m => do
-    match m with
-    | .regReg k' .. => if k' = k then coinAdd acc (← newInt64Coin r.params.denom r.params.feeReg) else pure acc
-    | .regRec k' .. => if k' = k then coinAdd acc (← newInt64Coin r.params.denom r.params.feeRec) else pure acc
-    | .regBuy k' _ n _ =>
-      if k' = k then do
-        let perSlot ← newInt64Coin r.params.denom r.params.feeBuy
-        let total := perSlot.amt * i64OfU64 n
-        if total < 0 then throw (.panic "negative coin amount")
-        coinAdd acc { denom := perSlot.denom, amt := total }
-      else pure acc
-    | _ => pure acc) zero
+  msgs.foldlM (msgFee r k) zero
 
 /-- `check*Fees` (CheckTx only) -/
 def checkFees (r : RegState) (k : RegKind) (tx : Tx) : M Unit := do
-  let d := r.params.denom
   -- GetZeroFeeAsCoin is evaluated first
-  let _ ← newInt64Coin d 0
-  if !(tx.fee.any (·.denom = d)) then throw (r.mErr 9)
+  let _ ← newInt64Coin r.params.denom 0
+  require (tx.fee.any (·.denom = r.params.denom)) (r.mErr 9)
   let expected ← expectedFee r k tx.msgs
-  let total : Coins := [expected]
-  if Coins.isAllLT tx.fee total then throw (r.mErr 10)
-  if Coins.isAllGT tx.fee total then throw (r.mErr 11)
+  require (!Coins.isAllLT tx.fee [expected]) (r.mErr 10)
+  require (!Coins.isAllGT tx.fee [expected]) (r.mErr 11)
+
+def Tx.payerM (tx : Tx) : M Addr :=
+  match tx.payer with
+  | some a => .ok a
+  | none => .error (.panic "no signers")
 
 /-- `checkFeePayerHasFunds` -/
 def checkPayerFunds (s : State) (r : RegState) (tx : Tx) : M Unit := do
-  let payer ← match tx.payer with | some a => pure a | none => throw (.panic "no signers")
-  if !s.bank.hasAccount payer then throw eUnknownAddress
-  if !Coins.isValid tx.fee then throw eInvalidCoins
+  let payer ← tx.payerM
+  require (s.bank.hasAccount payer) eUnknownAddress
+  require (Coins.isValid tx.fee) eInvalidCoins
   let lockedCoins := Coins.ofCoin (s.ent.lockedOf payer)
   let d := r.params.denom
   -- `_, fee := fees.Find(denom)` : zero-value Coin when absent ⇒ nil dereference in SafeSub
-  if !(tx.fee.any (·.denom = d)) then throw (.panic "nil pointer dereference")
+  require (tx.fee.any (·.denom = d)) (.panic "nil pointer dereference")
   let fee : Coins := [{ denom := d, amt := Coins.amountOf tx.fee d }]
-  let potential := Coins.add (s.bank.allBalances payer) lockedCoins
-  if (Coins.safeSub potential fee).2 then throw eInsufficientFunds
-  let potentialSpendable := Coins.add (s.bank.spendable s.nowSec payer) lockedCoins
-  if (Coins.safeSub potentialSpendable fee).2 then throw eInsufficientFunds
+  require (!(Coins.safeSub (Coins.add (s.bank.allBalances payer) lockedCoins) fee).2) eInsufficientFunds
+  require (!(Coins.safeSub (Coins.add (s.bank.spendable s.nowSec payer) lockedCoins) fee).2) eInsufficientFunds
 
-/-- `check*MaxSlots` -/
-def checkMaxSlots (r : RegState) (k : RegKind) (tx : Tx) : M Unit := do
-  let data : List (Nat × (Nat × Nat)) := tx.msgs.foldl (fun acc m =>
+/-- the per-id (max, want) table built by `check*MaxSlots` -/
+def slotTable (r : RegState) (k : RegKind) (msgs : List Msg) : List (Nat × (Nat × Nat)) :=
+  msgs.foldl (fun acc m =>
     match m with
     | .regBuy k' id n _ =>
       if k' = k then
@@ -430,73 +436,94 @@ def checkMaxSlots (r : RegState) (k : RegKind) (tx : Tx) : M Unit := do
         | none => AL.insert acc id (r.maxPurchasable id, n)
       else acc
     | _ => acc) []
-  if data.any (fun e => e.2.2 > e.2.1) then throw (r.mErr 8)
+
+/-- `check*MaxSlots` -/
+def checkMaxSlots (r : RegState) (k : RegKind) (tx : Tx) : M Unit :=
+  require (!(slotTable r k tx.msgs).any (fun e => e.2.2 > e.2.1)) (r.mErr 8)
 
 /-- `Correct{WrkChain,Beacon}FeeDecorator` -/
-def feeDecorator (k : RegKind) (mode : Mode) (s : State) (tx : Tx) : M State := do
-  if !tx.hasKind k then return s
-  let r := s.reg k
-  if mode = .check then checkFees r k tx
-  checkPayerFunds s r tx
-  checkMaxSlots r k tx
-  pure s
+def feeDecorator (k : RegKind) (mode : Mode) (s : State) (tx : Tx) : M State :=
+  if !tx.hasKind k then .ok s else do
+    (if mode = .check then checkFees (s.reg k) k tx else .ok ())
+    checkPayerFunds s (s.reg k) tx
+    checkMaxSlots (s.reg k) k tx
+    pure s
 
 /-- `CheckLockedUndDecorator` -/
 def unlockDecorator (s : State) (tx : Tx) : M State := do
-  let payer ← match tx.payer with | some a => pure a | none => throw (.panic "no signers")
-  if (tx.hasKind .wrk || tx.hasKind .bcn) && s.ent.isLocked payer then
+  let payer ← tx.payerM
+  if (tx.hasKind .wrk || tx.hasKind .bcn) && s.ent.isLocked payer then do
     let x ← EB.unlockForFees { ent := s.ent, bank := s.bank } s.nowSec payer tx.fee
     pure { s with ent := x.ent, bank := x.bank }
   else pure s
 
+/-- who pays: the fee granter when set (needs an allowance unless it is the payer itself) -/
+def feeSource (s : State) (tx : Tx) (payer : Addr) : M Addr :=
+  match tx.granter with
+  | none => .ok payer
+  | some g => do
+    require (g = payer || s.allowances.contains (g, payer)) (.err "feegrant" 5)
+    pure g
+
+/-- bank errors of `DeductFees` are wrapped as insufficient funds; panics stay panics -/
+def asInsufficientFunds {α : Type} : M α → M α
+  | .ok v => .ok v
+  | .error (.panic w) => .error (.panic w)
+  | .error _ => .error eInsufficientFunds
+
 /-- `DeductFeeDecorator` -/
 def deductFee (s : State) (tx : Tx) : M State := do
-  let payer ← match tx.payer with | some a => pure a | none => throw (.panic "no signers")
-  let src ← match tx.granter with
-    | none => pure payer
-    | some g =>
-      if g ≠ payer then
-        if !s.allowances.contains (g, payer) then throw (.err "feegrant" 5)
-      pure g
-  if !s.bank.hasAccount src then throw eUnknownAddress
-  if !Coins.isZero tx.fee then
-    if !Coins.isValid tx.fee then throw eInsufficientFee
-    match s.bank.sendCoins s.nowSec src Mfee tx.fee with
-    | .ok b => pure { s with bank := b }
-    | .error (.panic w) => throw (.panic w)
-    | .error _ => throw eInsufficientFunds
-  else pure s
+  let payer ← tx.payerM
+  let src ← feeSource s tx payer
+  require (s.bank.hasAccount src) eUnknownAddress
+  if Coins.isZero tx.fee then pure s else do
+    require (Coins.isValid tx.fee) eInsufficientFee
+    let b ← asInsufficientFunds (s.bank.sendCoins s.nowSec src Mfee tx.fee)
+    pure { s with bank := b }
+
+/-- `ValidateBasicDecorator` (tx level): one signature per required signer -/
+def stepValidateBasic (s : State) (tx : Tx) : M State := do
+  require (tx.signers.length = tx.required.length) eUnauthorized
+  require (!tx.required.isEmpty) eInvalidRequest
+  pure s
+
+/-- `SetPubKeyDecorator` : signer_infos must carry the required signers' keys; accounts must exist -/
+def stepSetPubKey (s : State) (tx : Tx) : M State := do
+  require (tx.signers = tx.required) (sdkErr 8)
+  require (tx.required.all s.bank.hasAccount) eUnknownAddress
+  pure s
+
+/-- `SigVerificationDecorator` (cryptography abstracted to the script's flag) -/
+def stepSigVerification (s : State) (tx : Tx) : M State := do
+  require (tx.required.all s.bank.hasAccount) eUnknownAddress
+  match tx.sig with
+  | .ok => pure s
+  | .badkey => .error eUnauthorized
+  | .badseq => .error eWrongSequence
 
 /-- one ante step by its decorator name (from `Facts.anteOrder`); `none` = unknown decorator -/
 def anteStep (name : String) : Option (Mode → State → Tx → M State) :=
   match name with
   | "SetUpContext" | "ExtensionOptions" | "TxTimeoutHeight" | "ValidateMemo" | "ConsumeGasForTxSize"
   | "ValidateSigCount" | "SigGasConsume" | "RedundantRelay" | "IncrementSequence" =>
-    some (fun _ s _ => pure s)
-  | "ValidateBasic" => some (fun _ s tx =>
-      if tx.signers.length ≠ tx.required.length then throw eUnauthorized
-      else if tx.required.isEmpty then throw eInvalidRequest else pure s)
+    some (fun _ s _ => .ok s)
+  | "ValidateBasic" => some (fun _ s tx => stepValidateBasic s tx)
   | "CorrectWrkChainFee" => some (fun mode s tx => feeDecorator .wrk mode s tx)
   | "CorrectBeaconFee" => some (fun mode s tx => feeDecorator .bcn mode s tx)
   | "CheckLockedUnd" => some (fun _ s tx => unlockDecorator s tx)
   | "DeductFee" => some (fun _ s tx => deductFee s tx)
-  | "SetPubKey" => some (fun _ s tx =>
-      if tx.signers ≠ tx.required then throw (sdkErr 8)
-      else if !(tx.required.all s.bank.hasAccount) then throw eUnknownAddress else pure s)
-  | "SigVerification" => some (fun _ s tx =>
-      if !(tx.required.all s.bank.hasAccount) then throw eUnknownAddress
-      else match tx.sig with
-        | .ok => pure s
-        | .badkey => throw eUnauthorized
-        | .badseq => throw eWrongSequence)
+  | "SetPubKey" => some (fun _ s tx => stepSetPubKey s tx)
+  | "SigVerification" => some (fun _ s tx => stepSigVerification s tx)
   | _ => none
+
+def anteStepM (mode : Mode) (tx : Tx) (s : State) (name : String) : M State :=
+  match anteStep name with
+  | some f => f mode s tx
+  | none => .error (.panic s!"unknown ante decorator {name}")
 
 /-- the composed ante handler: a fold over the regenerated decorator order -/
 def ante (order : List String) (mode : Mode) (s : State) (tx : Tx) : M State :=
-  order.foldlM (fun s name =>
-    match anteStep name with
-    | some f => f mode s tx
-    | none => throw (.panic s!"unknown ante decorator {name}")) s
+  order.foldlM (anteStepM mode tx) s
 
 inductive Outcome where | ok | err | panic
   deriving DecidableEq, Repr, Inhabited
@@ -545,16 +572,18 @@ def govExec (wall : Nat) (s : State) (m : Msg) : State × Bool :=
   | .ok (s', _) => (s', true)
   | .error _ => (s, false)
 
+/-- one statement of the enterprise `BeginBlocker` by the name of the keeper method it calls -/
+def beginStep (s : State) (name : String) : M State :=
+  match name with
+  | "ProcessAcceptedPurchaseOrders" => do
+    let x ← EB.processAccepted { ent := s.ent, bank := s.bank } s.nowSec isBlocked
+    pure { s with ent := x.ent, bank := x.bank }
+  | "TallyPurchaseOrderDecisions" => do
+    let e ← s.ent.tally s.nowSecU
+    pure { s with ent := e }
+  | _ => .error (.panic s!"unknown begin-block step {name}")
+
 /-- `BeginBlock` of the enterprise module: a fold over the regenerated statement order -/
-def beginBlock (steps : List String) (s : State) : M State :=
-  steps.foldlM (fun (s : State) name =>
-    match name with
-    | "ProcessAcceptedPurchaseOrders" => do
-      let x ← EB.processAccepted { ent := s.ent, bank := s.bank } s.nowSec isBlocked
-      pure { s with ent := x.ent, bank := x.bank }
-    | "TallyPurchaseOrderDecisions" => do
-      let e ← s.ent.tally s.nowSecU
-      pure { s with ent := e }
-    | _ => throw (.panic s!"unknown begin-block step {name}")) s
+def beginBlock (steps : List String) (s : State) : M State := steps.foldlM beginStep s
 
 end Mainchain
